@@ -781,7 +781,7 @@ pub fn check_c17(tier: &str) -> i32 {
         "C17",
         tier,
         "model_checking",
-        "for every handler map of 0..3 units, every destination 0..=255 and each of the eight request kinds in three flavours (valid, failing in the handler, malformed) plus unknown function codes, on RTU and TCP framing, the bytes written and the handler log are compared with the reference server (silence unless unicast to a configured unit; RTU broadcast writes reach every unit exactly once and are never answered; broadcast reads ignored); then all sequences of <= D events over a 12-symbol alphabet mixing broadcast, unicast and sentinel reads",
+        "for every handler map of 0..3 units, every destination 0..=255 and each of the eight request kinds in three flavours (valid, failing in the handler, malformed) plus unknown function codes, on RTU and TCP framing, the bytes written and the handler log are compared with the reference server (silence unless unicast to a configured unit; RTU broadcast writes reach every unit exactly once and are never answered; broadcast reads ignored); then all sequences of <= D events over a 12-symbol alphabet mixing broadcast, unicast and sentinel reads; finally a broadcast write racing an application thread that holds one unit's handler lock, all schedules at the handler-mutex acquisitions",
     );
     let depth = if rep.thorough() { 6 } else { 4 };
     rep.bounds = json!({"sequence_depth": depth, "destinations": 256, "unit_maps": 4, "kinds": 24});
@@ -827,7 +827,11 @@ pub fn check_c17(tier: &str) -> i32 {
     let seq_cfgs: Vec<ServerCfg> = cfgs.iter().filter(|c| !c.units.is_empty()).cloned().collect();
     let st = explore_sequences("C17", &seq_cfgs, depth, "RH", &c17_alphabet);
     rep.phase("sequences", st, json!({"depth": depth, "configs": seq_cfgs.len(), "alphabet": 12}));
-    for c in ["broadcast-write", "broadcast-read", "unconfigured-unit", "write-ok", "read-ok", "write-exception"] {
+    // a broadcast write while the application holds the handler lock of one unit: every schedule
+    // of the two threads at the handler-mutex acquisitions (cooperative scheduler of C19)
+    let st = crate::checks::ffi::c17_contended_broadcast();
+    rep.phase("broadcast write while an application thread holds a handler lock (all schedules)", st, json!({"units": [1, 2, 9]}));
+    for c in ["broadcast-write", "broadcast-read", "unconfigured-unit", "write-ok", "read-ok", "write-exception", "mutual-exclusion-observed"] {
         rep.require_class(c);
     }
     rep.assumptions.push("the order in which a broadcast write reaches the units is not specified and not judged".into());
@@ -949,7 +953,7 @@ pub fn check_c08(tier: &str) -> i32 {
         "C08",
         tier,
         "model_checking",
-        "production server session with AuthorizationType::Handler(handler, role): all sequences of <= D requests over an 18-symbol alphabet (eight kinds with two ranges each, malformed, unknown function, unconfigured unit, observing read) x policies (per-function masks, unit/range/index/role predicates, stateful first-only and alternating, the built-in read-only policy) x role strings; the interleaved log of authorization and point-handler calls, the reply bytes and the final application state are compared with the reference server. Second phase: every function at quantities {1, 2, 8, 9, maximum} x starts {0, 5, last possible} under every policy, alone and followed by every other such request",
+        "production server session with AuthorizationType::Handler(handler, role): all sequences of <= D requests over an 18-symbol alphabet (eight kinds with two ranges each, malformed, unknown function, unconfigured unit, observing read) x policies (per-function masks, unit/range/index/role predicates, stateful first-only and alternating, the built-in read-only policy) x role strings; the interleaved log of authorization and point-handler calls, the reply bytes and the final application state are compared with the reference server. Second phase: every function at quantities {1, 2, 8, 9, maximum} x starts {0, 5, last possible} under every policy, alone and followed by every other such request. Third phase (real TLS server with authorization, rustls peer): client certificates with roles operator / viewer / ' Operator' x policies that allow exactly one role string (6 spellings)",
     );
     let thorough = rep.thorough();
     let depth = if thorough { 4 } else { 3 };
@@ -982,7 +986,10 @@ pub fn check_c08(tier: &str) -> i32 {
     let n_wide = c08_wide_alphabet(&wide_cfgs[0]).len();
     let st = explore_sequences("C08", &wide_cfgs, wide_depth, "RH", &c08_wide_alphabet);
     rep.phase("boundary quantities and positions", st, json!({"depth": wide_depth, "configs": wide_cfgs.len(), "alphabet": n_wide}));
-    for c in ["denied", "read-ok", "write-ok", "unconfigured-unit", "unknown-function", "invalid:fc3:count-zero"] {
+    // over a real TLS server with authorization: the role is the certificate's, character for character
+    let st = crate::checks::tls::c08_tls_phase();
+    rep.phase("TLS server with authorization: certificate role x policy role", st, json!({"certificates": 3, "policy_roles": 6}));
+    for c in ["denied", "read-ok", "write-ok", "unconfigured-unit", "unknown-function", "invalid:fc3:count-zero", "tls-authz:allowed", "tls-authz:denied"] {
         rep.require_class(c);
     }
     rep.finish()
